@@ -220,7 +220,7 @@ def run_once(mod, spec, wall_timeout=60.0):
     return bootstrap.run_in_fork(mod.execute, spec, wall_timeout)
 
 
-def minimise(mod, spec, signature, budget_s=45.0, max_trials=400):
+def minimise(mod, spec, signature, budget_s=60.0, max_trials=500):
     """Greedy delta debugging: keep a smaller spec only if the same violation signature recurs."""
     t_end = time.monotonic() + budget_s
     trials = 0
@@ -250,6 +250,23 @@ def minimise(mod, spec, signature, budget_s=45.0, max_trials=400):
     # then drop schedule switch points (chunks first, then singles)
     if cur.get("strategy", {}).get("kind") == "scripted":
         sw = cur["strategy"]["switches"]
+        # shortest prefix of the schedule that still reproduces (after it: no more voluntary switches, forced hand-overs go
+        # to the lowest-numbered runnable thread) - a binary search, then chunk removal on what is left
+        lo, hi = 0, len(sw)
+        while lo < hi and time.monotonic() < t_end and trials < max_trials:
+            mid = (lo + hi) // 2
+            s = copy.deepcopy(cur)
+            s["strategy"]["switches"] = sw[:mid]
+            if same(s):
+                hi = mid
+            else:
+                lo = mid + 1
+        if hi < len(sw):
+            s = copy.deepcopy(cur)
+            s["strategy"]["switches"] = sw[:hi]
+            if same(s):
+                sw = sw[:hi]
+                cur = s
         n = max(1, len(sw) // 2)
         while n >= 1 and time.monotonic() < t_end and trials < max_trials:
             i = 0
@@ -410,6 +427,8 @@ def check_property(mod, tier, master_seed, nruns, nworkers, time_budget, level, 
     os.makedirs(os.path.join(OUT_DIR, "evidence"), exist_ok=True)
     with open(os.path.join(OUT_DIR, "evidence", f"{prop}.json"), "w") as f:
         json.dump(ev, f, indent=1)
+    with open(os.path.join(OUT_DIR, "evidence", f"{prop}.{tier}.json"), "w") as f:
+        json.dump(ev, f, indent=1)  # kept per tier: the plain file is rewritten by whichever tier ran last
     for ln in lines:
         print(ln)
     print(f"{prop} {tier}: runs={agg['runs']} ok={agg.get('ok', 0)} violation={agg.get('violation', 0)} inconclusive={agg.get('inconclusive', 0)} harness={agg.get('harness', 0)} distinct_nontrivial={len(keys)} wall={wall:.1f}s exit={exit_code}")  # fmt: skip
